@@ -333,7 +333,15 @@ impl<M: wire::Decode> wire::Decode for Frame<M> {
             Ok(StreamKind::Gossip) => {
                 let data = varint::payload::decode(reader)?;
                 let mut cursor = io::Cursor::new(data);
-                let msg = M::decode(&mut cursor)?;
+                // Nb. The payload was received in full: if we run out of data while decoding
+                // the message, the message is malformed, and waiting for more data won't help.
+                let msg = M::decode(&mut cursor).map_err(|err| {
+                    if err.is_eof() {
+                        wire::Error::Io(io::ErrorKind::InvalidData.into())
+                    } else {
+                        err
+                    }
+                })?;
                 let frame = Frame {
                     version,
                     stream,
